@@ -209,6 +209,19 @@ def run(ctx):
         if fout:
             ctx.diff(fout, "flushdb", classify=lambda op, impl: ("flushdb", op))
             engine_common.read_monitor(ctx, fout, "flushdb", ["C09:"])
+    # the byte stream the follower reads records and value blobs from (client.Stream) under chopped-up reads (mode `stream`; monitor only)
+    sexe = ctx.build_harness("client", only=["zz_verif_stream_test.go"])
+    if sexe:
+        sout = ctx.run_harness(sexe, "stream", 300 if ctx.tier == "quick" else 6000, timeout=300)
+        if sout:
+            engine_common.read_monitor(ctx, sout, "stream", ["C09:"])
+            sp = os.path.join(sout, "stream.stats")
+            if os.path.exists(sp):
+                dist = ctx.cov.setdefault("distribution", {})
+                for k, v in json.load(open(sp)).items():
+                    dist[k] = dist.get(k, 0) + v
+                    if k == "stream-case":
+                        ctx.cov["evaluations"] += v
     exe = ctx.build_harness("server", only=["zz_verif_repl_test.go"])
     if exe:
         n = 2500 if ctx.tier == "quick" else 60000
